@@ -81,6 +81,12 @@ def make_models():
     from .plug_c18 import C18Models  # C18: diag / x @ diag / tile / column statistics / list reversal (hooks gated on `c18 = True` contracts)
 
     m.plugins.insert(0, C18Models())
+    from .plug_c17b import C17bModels  # C17: MDO functions as values, unions of discipline input names (gated on `c17b = True` contracts / own value types)
+
+    m.plugins.insert(0, C17bModels())
+    from .plug_c17b import C17bInitModels  # C17: models of BaseFormulation.__init__ / CouplingStructure(...) (gated on `c17b_init = True` contracts)
+
+    m.plugins.insert(0, C17bInitModels())
     return m
 
 
